@@ -1,4 +1,6 @@
 import MidnightZK.Model.C12.Par
+import MidnightZK.Proofs.C12.Booth
+import MidnightZK.Proofs.C12.Msm
 /-!
 # C12 — MSM, FFT and the evaluation-domain algebra equal their naive definitions
 Property theorems (helper lemmas live in `MidnightZK/Proofs`).
@@ -50,5 +52,136 @@ theorem parallelize_partition (len t : Nat) (ht : 0 < t) :
 
 /-- Non-vacuity: 40 items on 12 threads give the 4,4,4,4,3,…,3 split of the source comment. -/
 example : (chunks 40 12).map (·.2) = [4, 4, 4, 4, 3, 3, 3, 3, 3, 3, 3, 3] := by decide
+
+/-! ## Window size and Booth digits -/
+
+/-- `msm_serial` / `msm_best`: whatever the number of bases, the window size `c` is at most 24
+(in fact 23: `⌈ln 2^32⌉`), the largest size for which the 32-bit load of `get_booth_index`
+still covers the `c+1` bits of a window after the sub-byte shift. -/
+theorem window_size_le_24 (len : Nat) : chooseWindow len ≤ 24 :=
+  le_trans (chooseWindow_le len) (by norm_num)
+
+/-- …and it is at least 1 for every length below `2^32` (the code casts `len as u32`; from `2^32`
+bases on, `c` can be 0 and `1 << (c - 1)` overflows). -/
+theorem window_size_pos (len : Nat) (h : len < 2 ^ 32) : 1 ≤ chooseWindow len :=
+  chooseWindow_pos len h
+
+example : chooseWindow 3 = 1 ∧ chooseWindow 4 = 3 ∧ chooseWindow 31 = 3 ∧ chooseWindow 32 = 4 ∧
+    chooseWindow 8103 = 9 ∧ chooseWindow 8104 = 10 := by decide
+
+/-- `get_booth_index`: for every window size `1 ≤ w ≤ 24`, every window index and every byte
+string, the `u32` load / shift / mask sequence returns the signed Booth digit of the `w+1` bits
+of `2·v` at bit `w·i`. -/
+theorem booth_index_eq_digit (i w : Nat) (el : List Nat) (hel : ∀ b ∈ el, b < 256)
+    (hw1 : 1 ≤ w) (hw : w ≤ 24) :
+    boothIndex i w el = boothDigit i w (leBytesToNat el) :=
+  boothIndex_eq_digit i w el hel hw1 hw
+
+example : boothIndex 2 3 [0xb7, 0x01] = boothDigit 2 3 0x1b7 := by decide
+
+/-- Every digit selects one of the `2^(w-1)` buckets (or none): `|digit| ≤ 2^(w-1)`. -/
+theorem booth_digit_bound (i w : Nat) (el : List Nat) (hel : ∀ b ∈ el, b < 256)
+    (hw1 : 1 ≤ w) (hw : w ≤ 24) : (boothIndex i w el).natAbs ≤ 2 ^ (w - 1) := by
+  rw [boothIndex_eq_digit i w el hel hw1 hw]
+  exact boothDigit_bound i w _ hw1
+
+/-- `booth_recompose`: the digits of `get_booth_index` over `n` windows of size `w` recompose the
+scalar, `Σᵢ digitᵢ · 2^(w·i) = value`, for every `1 ≤ w ≤ 24` and every byte string whose value
+leaves the top bit of the last window free (`msm_serial`: `n = 8·max_byte_size / c + 1`,
+`msm_best`: `n = NUM_BITS / c + 1`). At `w = 25` the statement is false (the 32-bit load no longer
+covers the window), hence `window_size_le_24`. -/
+theorem booth_recompose (n w : Nat) (el : List Nat) (hel : ∀ b ∈ el, b < 256)
+    (hw1 : 1 ≤ w) (hw : w ≤ 24) (hv : 2 * leBytesToNat el < 2 ^ (w * n)) :
+    ∑ i ∈ Finset.range n, boothIndex i w el * (2 : Int) ^ (w * i) = leBytesToNat el := by
+  rw [← boothDigit_recompose n w (leBytesToNat el) hw1 hv]
+  apply Finset.sum_congr rfl
+  intro i _
+  rw [boothIndex_eq_digit i w el hel hw1 hw]
+
+/-- Non-vacuity: `0xffff` in 6 windows of 3 bits is `-1 + 2·8^5`. -/
+example : boothRow 6 3 [0xff, 0xff] = [-1, 0, 0, 0, 0, 2] := by decide
+
+/-! ## Bucket MSM over an abstract commutative group -/
+
+section
+variable {G : Type} [AddCommGroup G]
+
+/-- The naive definition: `Σᵢ value(coeffᵢ) · baseᵢ`. -/
+def msmSpec (coeffs : List (List Nat)) (bases : List G) : G :=
+  ((coeffs.zip bases).map (fun cb => leBytesToNat cb.1 • cb.2)).sum
+
+/-- `bucket_sum_spec` — "summation by parts" adds `Σ_k (k+1)·bucket_k` to the accumulator. -/
+theorem bucket_sum_spec (buckets : List G) (acc : G) :
+    sumByParts buckets acc
+      = acc + ∑ k ∈ Finset.range buckets.length, (k + 1) • buckets.getD k 0 := by
+  rw [sumByParts_eq, wsum_eq_finset]
+
+/-- The doubling applied to the accumulator handed to `msm_serial`. -/
+def serialShift (coeffs : List (List Nat)) (len : Nat) : Nat :=
+  if maxByteSize coeffs = 0 then 0
+  else chooseWindow len * (maxByteSize coeffs * 8 / chooseWindow len + 1)
+
+/-- `msm_serial_spec`: for every list of byte-string coefficients and bases (fewer than `2^32`),
+`msm_serial` leaves `2^shift · acc + Σ value(coeffᵢ)·baseᵢ` in the accumulator; with the identity
+as accumulator (the only way `msm_parallel` calls it) that is the naive sum. Identity bases,
+repeated and opposite bases, zero and maximal scalars are all covered: `G` is any commutative
+group and the statement has no side condition on the bases. -/
+theorem msm_serial_spec (coeffs : List (List Nat)) (bases : List G) (acc : G)
+    (hbytes : ∀ co ∈ coeffs, ∀ b ∈ co, b < 256) (hlen : bases.length < 2 ^ 32) :
+    msmSerial coeffs bases acc
+      = (2 ^ serialShift coeffs bases.length : Nat) • acc + msmSpec coeffs bases := by
+  unfold msmSerial serialShift msmSpec
+  simp only []
+  have hc1 := chooseWindow_pos bases.length hlen
+  have hc24 : chooseWindow bases.length ≤ 24 := le_trans (chooseWindow_le _) (by norm_num)
+  set c := chooseWindow bases.length with hc
+  set mbs := maxByteSize coeffs with hmbs
+  have hval : ∀ co ∈ coeffs, leBytesToNat co < 256 ^ mbs := fun co hco =>
+    lt_of_lt_of_le (leBytesToNat_lt_trim co (hbytes co hco))
+      (Nat.pow_le_pow_right (by norm_num) (le_maxByteSize coeffs co hco))
+  by_cases h0 : mbs = 0
+  · simp only [h0, if_true, pow_zero, one_smul]
+    have : ((coeffs.zip bases).map (fun cb => leBytesToNat cb.1 • cb.2)).sum = 0 := by
+      apply List.sum_eq_zero
+      intro x hx
+      obtain ⟨cb, hcb, rfl⟩ := List.mem_map.mp hx
+      have := hval cb.1 (List.of_mem_zip hcb).1
+      rw [h0] at this
+      have : leBytesToNat cb.1 = 0 := by omega
+      rw [this, zero_smul]
+    rw [this, add_zero]
+  · simp only [h0, if_false]
+    set nw := mbs * 8 / c + 1 with hnw
+    have hbody : (fun (acc : G) w => sumByParts (windowBuckets w c coeffs bases) (dblN c acc))
+        = (fun acc w => (2 ^ c : Nat) • acc
+            + ((coeffs.zip bases).map (fun cb => boothIndex w c cb.1 • cb.2)).sum) := by
+      funext acc w
+      rw [sumByParts_eq, dblN_eq, wsum_windowBuckets]
+      intro co hco
+      exact booth_digit_bound w c co (hbytes co hco) hc1 hc24
+    rw [hbody, serial_fold c _ nw acc,
+      sum_windows_exchange (coeffs.zip bases) nw (fun w co => boothIndex w c co) c]
+    congr 1
+    apply congrArg
+    apply List.map_congr_left
+    intro cb hcb
+    have hco := (List.of_mem_zip hcb).1
+    have hcover : 2 * leBytesToNat cb.1 < 2 ^ (c * nw) := by
+      have h1 := hval cb.1 hco
+      have h2 : (256 : Nat) ^ mbs = 2 ^ (8 * mbs) := by rw [pow_mul]; norm_num
+      have h3 : 8 * mbs + 1 ≤ c * nw := by
+        have := Nat.div_add_mod (mbs * 8) c
+        have hm := Nat.mod_lt (mbs * 8) hc1
+        rw [hnw, Nat.mul_add, Nat.mul_one]
+        omega
+      calc 2 * leBytesToNat cb.1 < 2 * 2 ^ (8 * mbs) := by omega
+        _ = 2 ^ (8 * mbs + 1) := by rw [pow_succ]; ring
+        _ ≤ 2 ^ (c * nw) := Nat.pow_le_pow_right (by norm_num) h3
+    rw [booth_recompose nw c cb.1 (hbytes cb.1 hco) hc1 hc24 hcover, natCast_zsmul]
+
+/-- Non-vacuity (ℤ as the group): `5·7 + 300·(-2)` through one Booth window of size 1. -/
+example : msmSerial [[5, 0], [44, 1]] [(7 : Int), -2] 0 = 5 * 7 + 300 * (-2) := by decide
+
+end
 
 end MidnightZK.C12
